@@ -15,7 +15,10 @@ namespace ref
 // grammar specification (single source: fleet/specs.py -> generated C++ data + generated ctpg code)
 enum TermKind { T_CHAR, T_STRING, T_REGEX, T_CUSTOM };
 enum Assoc { A_NONE = 0, A_LTOR = 1, A_RTOL = 2 };
-enum FtorKind { F_DEFAULT = 0, F_PLAIN = 1, F_CTX = 2 };
+enum FtorKind { F_DEFAULT = 0, F_PLAIN = 1, F_CTX = 2,
+                F_ELEMENT = 3,        // ftors::_eN: the N-th argument passes through (RuleSpec::eidx)
+                F_CREATE_LIST = 4,    // ftors::create<std::vector<V>>
+                F_EMPLACE_BACK = 5 }; // ftors::emplace_back<1,2>: argument 2 appended to the list in argument 1
 
 struct TermSpec
 {
@@ -34,6 +37,7 @@ struct RuleSpec
     int lhs;
     std::vector<Sym> rhs;
     int ftor = F_PLAIN;
+    int eidx = 0;         // F_ELEMENT: 1-based argument index
     int prec = 0;         // explicit [n]; 0 = none
 };
 
